@@ -54,10 +54,13 @@ func runC11(ctx *Ctx) {
 	rep := ctx.Rep
 	reps := ctx.pick(20, 200)
 	rep.Rule = fmt.Sprintf("each input distilled %d times in one process (Go re-randomises map order on every range) with fresh and with reused Options values, both algorithms, plus ApplyForReader / ApplyForFile against Apply(dom.Parse(bytes)); every field but TimingInfo compared; inputs weighted to pagers with several numeric parameters, single-link patterns and tied Next anchors; distinct by page structure; non-trivial = the page has a pager that offers at least two candidate patterns or two tied anchors", reps)
-	run := func(src string) {
-		nontrivial := strings.Contains(src, "&amp;pg=") || strings.Contains(src, "?pg=") || strings.Contains(src, "-photos/page/") || strings.Contains(src, "/part/")
+	run := func(src string, urls ...string) {
+		if len(urls) == 0 {
+			urls = []string{"http://example.com/dir/story", "http://example.com/dir/story/"}
+		}
+		nontrivial := len(urls) == 1 || strings.Contains(src, "&amp;pg=") || strings.Contains(src, "?pg=") || strings.Contains(src, "-photos/page/") || strings.Contains(src, "/part/")
 		for algo := 0; algo < 2; algo++ {
-			for _, us := range []string{"http://example.com/dir/story", "http://example.com/dir/story/"} {
+			for _, us := range urls {
 				u, _ := nurl.Parse(us)
 				shared := &distiller.Options{OriginalURL: u, PaginationAlgo: distiller.PaginationAlgo(algo)}
 				var first resultView
@@ -140,6 +143,20 @@ func runC11(ctx *Ctx) {
 	for _, src := range corpusPages(ctx, "C11") {
 		run(src)
 	}
+	// pagers on their own page URL (mixed anchors, several numeric query parameters, gaps):
+	// the layouts in which the order of evaluating the page patterns mattered run first
+	for _, c := range c16Corpus() {
+		run(c.HTML, c.PageURL)
+	}
+	for i := 0; i < ctx.pick(150, 4000); i++ {
+		r := newRng(ctx.Seed, fmt.Sprintf("C11/pager/%d", i))
+		c := genPager(r, newPageGen(r))
+		if r.Chance(50) {
+			// a second numeric parameter on every pager link, some page numbers missing
+			c = sparsePager(r)
+		}
+		run(c.HTML, c.PageURL)
+	}
 	n := ctx.pick(60, 1500)
 	for i := 0; i < n; i++ {
 		r := newRng(ctx.Seed, fmt.Sprintf("C11/%d", i))
@@ -154,4 +171,25 @@ func runC11(ctx *Ctx) {
 			run("<html><head><title>Some page title - Section - Site</title></head><body>" + body + "</body></html>")
 		}
 	}
+}
+
+// sparsePager: links "?page=N&id=7" (two numeric parameters each) for an ascending subset of
+// page numbers, with plain numbers in between: single-link patterns and multi-link patterns
+// are both candidates, so the order of evaluation is observable.
+func sparsePager(r *Rng) pagerCase {
+	extra := r.Pick("id=7", "id=7&v=2", "y=2024", "a=1&b=2")
+	var items []string
+	num := 0
+	k := r.Range(1, 6)
+	for i := 0; i < r.Range(2, 6); i++ {
+		num += r.Range(1, 3)
+		if r.Chance(30) {
+			items = append(items, fmt.Sprint(num))
+		} else {
+			items = append(items, fmt.Sprintf(`<a href="/a?page=%d&amp;%s">%d</a>`, num, strings.ReplaceAll(extra, "&", "&amp;"), num))
+		}
+	}
+	body := "<p>" + strings.Repeat("word ", 80) + "</p>"
+	return pagerCase{PageURL: fmt.Sprintf("http://example.com/a?page=%d&%s", k, extra),
+		HTML: "<html><head><title>A paginated article</title></head><body>" + body + "<div>" + strings.Join(items, " ") + "</div></body></html>", Desc: map[string]string{"family": "sparse"}}
 }
